@@ -104,7 +104,8 @@ def check(run):
     sfailed = D.structural_spmd(run, ["generation/generator.py", "generation/simplifier.py", "generation/duplicate_checker.py"], "generation")
     plist = [1, 2, 5, 16] if tier == "quick" else [1, 2, 3, 5, 7, 16]
     groups = [[{"runname": "core_maths", "n": 3, "P_list": plist, "perturb": True}],
-              [{"runname": "core_maths", "n": 4, "P_list": plist[:3] if tier == "quick" else plist, "perturb": True}],
+              # 4 ranks: the one-parameter list of core_maths 4 has a sign-flip pair at positions 9 / 10 of 18, which only 4 ranks put on different ranks
+              [{"runname": "core_maths", "n": 4, "P_list": [1, 2, 4, 5] if tier == "quick" else sorted(set(plist + [4])), "perturb": True}],
               [{"runname": "ext_maths", "n": 3, "P_list": [1, 3, 16], "perturb": True}],
               # a basis with so few functions per shape that most ranks own nothing of a shape (5 functions of shape 2,0,0; function 0 has a rewritten tree)
               [{"runname": "verif_c13_tiny", "n": 3, "basis": [["x"], ["inv"], ["+", "*", "-", "/", "pow"]], "P_list": [1, 6, 9], "perturb": False}]]
